@@ -10,11 +10,12 @@ Import ListNotations.
 Inductive hook :=
 | HUser (id : nat)        (* a hook function supplied by the user *)
 | HChild (pid : nat)      (* Fork: the child is registered on the parent *)
-| HWaitDone (pid : nat).  (* Fork: the child's own first hook, parent.wait.Done() *)
+| HWaitDone (pid : nat)   (* Fork: the child's own first hook, parent.wait.Done() *)
+| HParked (id : nat).     (* a user hook that has been entered (logged) and has not returned yet: only ever the head of a thread's top frame *)
 
 Definition hook_eqb (a b : hook) : bool :=
   match a, b with
-  | HUser x, HUser y | HChild x, HChild y | HWaitDone x, HWaitDone y => Nat.eqb x y
+  | HUser x, HUser y | HChild x, HChild y | HWaitDone x, HWaitDone y | HParked x, HParked y => Nat.eqb x y
   | _, _ => false
   end.
 
@@ -80,7 +81,8 @@ Fixpoint advance (fuel : nat) (st : pstate) (tid : nat) : pstate :=
           match h with
           | HUser id =>
               (* entered: logged; stays at the head (parked) until PStep *)
-              mkps (procs st) (threads st) (hlog st ++ [(id, err)])
+              mkps (procs st) (set_nth tid (mkthread ((HParked id :: hs, err) :: rest)) (threads st)) (hlog st ++ [(id, err)])
+          | HParked _ => st
           | HWaitDone parent =>
               let pp := get_proc st parent in
               let st1 := upd_proc st parent (mkproc (p_term pp) (p_err pp) (p_hooks pp) (p_data pp) (p_parent pp) (pred (p_wait pp))) in
@@ -130,7 +132,7 @@ Definition p_step (st : pstate) (op : pop) : pstate * pres :=
       (advance (fuel_of st1) (upd_thread st1 tid (mkthread [(rev taken, err)])) tid, PUnit)
   | PStep tid =>
       match t_frames (get_thread st tid) with
-      | (HUser _ :: hs, err) :: rest =>
+      | (HParked _ :: hs, err) :: rest =>
           let st1 := upd_thread st tid (mkthread ((hs, err) :: rest)) in
           (advance (fuel_of st1) st1 tid, PUnit)
       | _ => (st, PUnit)
